@@ -13,7 +13,7 @@ EXPLANATION = ("Shape/constant conformance of the type-checked program against t
                "layer order (encryption below compression) and gating in the four from_config stacks; (R06.7) HKDF-SHA256(None, dh).expand(\"KEY "
                "DERIVATION\") and AES-GCM(dh_key, \"ECIES NONCE0\", \"\") key wrap; (R06.8) cipher core types Ctr128BE<Aes256> + GHash, counter block "
                "nonce||0001, keystream offset 16; (R06.9) every entry pushed to compressed_sizes is the pos counter of the writer returned by CompressorWriter::into_inner() "
-               "(stream closed, terminator counted) and every close records a size; (R06.10) chunk / block geometry of writer and readers; (R06.11) every brotli encoder is built to emit a plain RFC 7932 stream (CompressorWriter::new with a constant window of 10..=24 bits, or with_params without large_window / catable / appendable / magic_number / dictionary); (R06.12) = R10.2 on the compression reader: seek(Start) rebuilds the state and repositions the inner reader, so an archive is read from positions alone; R06.3 also requires the u64 written before a byte string of a field to be len() of those bytes (not a character count). Interoperability with an independent decoder and GCM numerics are runtime facts and not decided.")
+               "(stream closed, terminator counted) and every close records a size; (R06.10) chunk / block geometry of writer and readers; (R06.11) every brotli encoder is built to emit a plain RFC 7932 stream (CompressorWriter::new with a constant window of 10..=24 bits, or with_params without large_window / catable / appendable / magic_number / dictionary); (R06.12) = R10.2 on the compression reader: seek(Start) rebuilds the state and repositions the inner reader, so an archive is read from positions alone; (R06.13) = R03.8: seek(End) of the encryption reader lands on the end of the data whatever the length of the last chunk (the trailers are located from it); R06.3 also requires the u64 written before a byte string of a field to be len() of those bytes (not a character count). Interoperability with an independent decoder and GCM numerics are runtime facts and not decided.")
 TRUSTED = ['rustc const evaluation and type normalisation', 'bincode 1.3 fixint/limit option semantics', 'byteorder', 'serde derive (fields serialised in declaration order)', 'hkdf, aes, ctr, ghash crates']
 ASSUMPTIONS = ['FORMAT.md at the pinned commit is the published format (tables/format_v1.json transcribes it)']
 
@@ -670,6 +670,10 @@ def run(prog, rep, tier):
     # position alone -- seek(Start) rebuilds its state and repositions the inner reader (= R10.2 on the compression layer)
     from .c10 import r10_2
     r10_2(prog, rep, 'R06.12', adts=('layers::compress::CompressionLayerReader',))
+    # the trailers of FORMAT.md (sizes footer, file index length) are found by seeking from the end of the layer below: the end of the decrypted stream
+    # is the end of the data whatever the length of the last chunk (= R03.8)
+    from .c03 import end_of_data_rule
+    end_of_data_rule(prog, rep, 'R06.13')
 
 
 def r06_11(prog, rep):
